@@ -44,6 +44,16 @@ type C19Scenario struct {
 	// Optimizer and asks it for a plan per request); the threads then only
 	// execute their own plans, each with its own ExecuteCtx
 	SharedOptimizer bool `json:"shared_optimizer,omitempty"`
+	// KeptSlices: the stores hand out the slices they keep (store.NewKept), and
+	// every thread reads the rows of a poll only after a further scheduling point
+	KeptSlices bool `json:"kept_slices,omitempty"`
+}
+
+func (sc *C19Scenario) newStore(i int) *store.MemStore {
+	if sc.KeptSlices {
+		return store.NewKept(sc.Stores[i])
+	}
+	return store.New(sc.Stores[i])
 }
 
 type c19Case struct {
@@ -68,51 +78,56 @@ func c19BaseScenarios() []C19Scenario {
 	return []C19Scenario{
 		{"two-aggregates", [][]store.Pair{d(), d()}, []C19Thread{
 			{[]string{"select substr(key, 0, 1) as p, count(1), sum(strlen(value)) where true group by p"}, 0, drv.Row},
-			{[]string{"select substr(key, 0, 1) as p, max(strlen(value)), group_concat(key, ',') where key != 'zz' group by p order by p desc"}, 1, drv.Batch}}, false},
+			{[]string{"select substr(key, 0, 1) as p, max(strlen(value)), group_concat(key, ',') where key != 'zz' group by p order by p desc"}, 1, drv.Batch}}, false, false},
 		{"regexp-filters", [][]store.Pair{d(), d()}, []C19Thread{
 			{[]string{"select * where key ~= '^a' & value ~= '[0-9]'"}, 0, drv.Batch},
-			{[]string{"select key where value ~= '^[0-9]$' | key ~= '1$'"}, 1, drv.Row}}, false},
+			{[]string{"select key where value ~= '^[0-9]$' | key ~= '1$'"}, 1, drv.Row}}, false, false},
 		{"aliased-projections", [][]store.Pair{d(), d()}, []C19Thread{
 			{[]string{"select key, strlen(value) as l, l + 1 as m where l > 0"}, 0, drv.Batch},
-			{[]string{"select key, upper(key) as u where u ^= 'A' order by u desc"}, 1, drv.Row}}, false},
+			{[]string{"select key, upper(key) as u where u ^= 'A' order by u desc"}, 1, drv.Row}}, false, false},
 		{"error-rendering", [][]store.Pair{d(), d()}, []C19Thread{
 			{[]string{"select * where key ^= 1", "select key where int(value) / (strlen(key) - 2) > 0"}, 0, drv.Row},
-			{[]string{"select key, value where key ^= 'a' limit 1"}, 1, drv.Batch}}, false},
+			{[]string{"select key, value where key ^= 'a' limit 1"}, 1, drv.Batch}}, false, false},
 		{"shared-store-readers-and-writers", [][]store.Pair{d()}, []C19Thread{
 			{[]string{"select * where key ^= 'a'"}, 0, drv.Batch},
 			{[]string{"put ('z1', 'v'), ('z2', upper('w' + key))"}, 0, drv.Row},
-			{[]string{"delete where key ^= 'y'"}, 0, drv.Row}}, false},
+			{[]string{"delete where key ^= 'y'"}, 0, drv.Row}}, false, false},
 		{"plan-building-vs-execution", [][]store.Pair{d(), d()}, []C19Thread{
 			{[]string{"select key, int(value) + 1 where key in ('a1', 'b1') & is_int(value)"}, 0, drv.Row},
-			{[]string{"select * where key > 'a' & key < 'c' | key = 'y1'", "select count(1) where true"}, 1, drv.Batch}}, false},
+			{[]string{"select * where key > 'a' & key < 'c' | key = 'y1'", "select count(1) where true"}, 1, drv.Batch}}, false, false},
 		{"order-limit-vs-delete", [][]store.Pair{d(), d()}, []C19Thread{
 			{[]string{"select key, value where true order by value desc limit 1, 2"}, 0, drv.Batch},
-			{[]string{"delete where value != '3' limit 1, 1"}, 1, drv.Row}}, false},
+			{[]string{"delete where value != '3' limit 1, 1"}, 1, drv.Row}}, false, false},
 		{"same-statement-row-and-batch-shared-store", [][]store.Pair{d()}, []C19Thread{
 			{[]string{"select key, split(value, ',') as s where '2' in s | key ^= 'b'"}, 0, drv.Row},
-			{[]string{"select key, split(value, ',') as s where '2' in s | key ^= 'b'"}, 0, drv.Batch}}, false},
+			{[]string{"select key, split(value, ',') as s where '2' in s | key ^= 'b'"}, 0, drv.Batch}}, false, false},
 		{"puts-and-removes", [][]store.Pair{d(), d()}, []C19Thread{
 			{[]string{"put ('k1', 'v1')", "remove 'a1', 'a2'"}, 0, drv.Row},
-			{[]string{"put ('k1', join('-', 1, 2)), ('k2', lower('V2'))"}, 1, drv.Batch}}, false},
+			{[]string{"put ('k1', join('-', 1, 2)), ('k2', lower('V2'))"}, 1, drv.Batch}}, false, false},
 		{"scalar-and-aggregate-registries", [][]store.Pair{d(), d()}, []C19Thread{
 			{[]string{"select key, l2_distance(list(1, 2), list(strlen(key), 2)), json(value)['a'] where is_float(value) | true"}, 0, drv.Batch},
-			{[]string{"select avg(strlen(value)), min(key), json_arrayagg(key), quantile(strlen(value), 0.5) where true"}, 1, drv.Row}}, false},
+			{[]string{"select avg(strlen(value)), min(key), json_arrayagg(key), quantile(strlen(value), 0.5) where true"}, 1, drv.Row}}, false, false},
 		{"execution-errors", [][]store.Pair{d(), d()}, []C19Thread{
 			{[]string{"select key where value between 'b' and 'a'"}, 0, drv.Batch},
-			{[]string{"select key where l2_distance(list(1), list(1, 2)) > 0"}, 1, drv.Row}}, false},
+			{[]string{"select key where l2_distance(list(1), list(1, 2)) > 0"}, 1, drv.Row}}, false, false},
 		// the same kinds of failure on both sides: an error value handed out by
 		// the library must belong to the statement that failed
 		{"same-errors-both-sides", [][]store.Pair{d(), d()}, []C19Thread{
 			{[]string{"select * where key =", "select * where key in", "put ('k1', 'v1'), ('k2'", "select * where key ^= 1", "select nosuch(key) where true", "select key where 1 / (strlen(key) - 2) > 0"}, 0, drv.Row},
-			{[]string{"select key, upper(value) where value !=", "select * where key ^= 'a' & value in", "put ('k9'", "select key where value ^= 2", "select key where nosuch(value) = 1", "select value where 2 / (strlen(key) - 2) > 1"}, 1, drv.Batch}}, false},
+			{[]string{"select key, upper(value) where value !=", "select * where key ^= 'a' & value in", "put ('k9'", "select key where value ^= 2", "select key where nosuch(value) = 1", "select value where 2 / (strlen(key) - 2) > 1"}, 1, drv.Batch}}, false, false},
 		// plans built one after the other by one Optimizer value, executed concurrently
 		{Name: "one-optimizer-two-plans", Stores: [][]store.Pair{d(), d()}, SharedOptimizer: true, Threads: []C19Thread{
 			{[]string{"select substr(key, 0, 1) as p, count(1), sum(strlen(value)) + count(1) where true group by p"}, 0, drv.Row},
 			{[]string{"select substr(key, 0, 1) as p, count(1), sum(strlen(value)) + count(1) where true group by p"}, 1, drv.Batch}}},
+		// values built from the bytes the storage hands out (text concatenation,
+		// in the filter and in the select list): each statement owns what it builds
+		{Name: "concatenation-on-kept-slices", Stores: [][]store.Pair{d()}, KeptSlices: true, Threads: []C19Thread{
+			{[]string{"select key, value + '-A', key + value where key ^= 'a' | value + 'x' = '3x'"}, 0, drv.Batch},
+			{[]string{"select key, value + '-BB' as x where x != '9-BB'"}, 0, drv.Batch}}},
 		{"three-access-paths", [][]store.Pair{d()}, []C19Thread{
 			{[]string{"select * where key in ('a1', 'y1', 'zz')"}, 0, drv.Row},
 			{[]string{"select * where key ^= 'a'"}, 0, drv.Batch},
-			{[]string{"select key where key between 'a2' and 'b9' order by key desc"}, 0, drv.Row}}, false},
+			{[]string{"select key where key between 'a2' and 'b9' order by key desc"}, 0, drv.Row}}, false, false},
 	}
 }
 
@@ -124,7 +139,7 @@ func C19Scenarios() []C19Scenario {
 	for _, sc := range c19BaseScenarios() {
 		out = append(out, sc)
 		for _, mode := range []string{drv.Row, drv.Batch} {
-			v := C19Scenario{Name: sc.Name + "/all-" + mode, Stores: sc.Stores}
+			v := C19Scenario{Name: sc.Name + "/all-" + mode, Stores: sc.Stores, SharedOptimizer: sc.SharedOptimizer, KeptSlices: sc.KeptSlices}
 			same := true
 			for _, th := range sc.Threads {
 				if th.Mode != mode {
@@ -171,17 +186,26 @@ func c19Prebuild(sc C19Scenario, sts []kvql.Storage) [][]kvql.FinalPlan {
 }
 
 func c19RunStmtsPre(th C19Thread, st kvql.Storage, point func(string), pre []kvql.FinalPlan) string {
+	return c19RunStmtsLate(th, st, point, pre, false)
+}
+
+// late: the rows of a poll are read after a further scheduling point.
+func c19RunStmtsLate(th C19Thread, st kvql.Storage, point func(string), pre []kvql.FinalPlan, late bool) string {
 	var out []string
 	for qi, q := range th.Stmts {
 		if point != nil {
 			point("build:" + q)
 		}
 		var o *drv.Outcome
+		opt := drv.Opt{Mode: th.Mode}
+		if late && point != nil {
+			opt.AfterPoll = func() { point("rows:" + q) }
+		}
 		if pre != nil && pre[qi] != nil {
 			o = &drv.Outcome{Plan: pre[qi]}
-			drv.Drain(pre[qi], drv.Opt{Mode: th.Mode}, o)
+			drv.Drain(pre[qi], opt, o)
 		} else {
-			o = drv.Run(q, st, drv.Opt{Mode: th.Mode})
+			o = drv.Run(q, st, opt)
 		}
 		s := o.Describe()
 		if err := o.Err(); err != nil {
@@ -202,7 +226,7 @@ func c19RunStmtsPre(th C19Thread, st kvql.Storage, point func(string), pre []kvq
 func C19Solo(sc C19Scenario) []string {
 	res := make([]string, len(sc.Threads))
 	for i, th := range sc.Threads {
-		st := store.New(sc.Stores[th.Store])
+		st := sc.newStore(th.Store)
 		st.NoLog = true
 		res[i] = c19RunStmts(th, st, nil)
 	}
@@ -212,8 +236,8 @@ func C19Solo(sc C19Scenario) []string {
 // C19Sequential: final contents of the stores after the threads ran one after another.
 func C19Sequential(sc C19Scenario) []string {
 	sts := make([]*store.MemStore, len(sc.Stores))
-	for i, ps := range sc.Stores {
-		sts[i] = store.New(ps)
+	for i := range sc.Stores {
+		sts[i] = sc.newStore(i)
 		sts[i].NoLog = true
 	}
 	for _, th := range sc.Threads {
@@ -300,6 +324,7 @@ type c19Obs struct {
 	varPoints     int
 	heapWrites    int
 	heapConflicts []string
+	keptDamage    []string
 }
 
 type c19HeapW struct {
@@ -320,7 +345,7 @@ func newC19Monitor() *c19Monitor {
 func c19SoloMonitored(sc C19Scenario, mon *c19Monitor) []string {
 	res := make([]string, len(sc.Threads))
 	for i, th := range sc.Threads {
-		st := store.New(sc.Stores[th.Store])
+		st := sc.newStore(th.Store)
 		st.NoLog = true
 		if c19SetHook != nil {
 			i := i
@@ -340,8 +365,8 @@ func c19Execute(sc C19Scenario, prefix []int, mon *c19Monitor) (*sched.Exec, *c1
 		mon = newC19Monitor()
 	}
 	sts := make([]*store.MemStore, len(sc.Stores))
-	for i, ps := range sc.Stores {
-		sts[i] = store.New(ps)
+	for i := range sc.Stores {
+		sts[i] = sc.newStore(i)
 		sts[i].NoLog = true
 	}
 	var ex *sched.Exec
@@ -361,7 +386,7 @@ func c19Execute(sc C19Scenario, prefix []int, mon *c19Monitor) (*sched.Exec, *c1
 			if pre != nil {
 				mine = pre[i]
 			}
-			obs.results[i] = c19RunStmtsPre(th, sts[th.Store], e.Point, mine)
+			obs.results[i] = c19RunStmtsLate(th, sts[th.Store], e.Point, mine, sc.KeptSlices)
 		}
 	}
 	// the hooks need the Exec before Run returns: install them through a holder
@@ -429,6 +454,9 @@ func c19Execute(sc C19Scenario, prefix []int, mon *c19Monitor) (*sched.Exec, *c1
 	}
 	for _, s := range sts {
 		obs.stores = append(obs.stores, s.Canon())
+		if msg := s.KeptIntact(); msg != "" {
+			obs.keptDamage = append(obs.keptDamage, msg)
+		}
 	}
 	obs.conflicts = mon.conflicts()
 	sort.Strings(obs.heapConflicts)
@@ -457,6 +485,9 @@ func c19Judge(sc C19Scenario, solo, seq []string, obs *c19Obs, c *c19Case) *core
 	}
 	if len(obs.heapConflicts) > 0 && os.Getenv("VERIF_C19_SYNC") != "1" {
 		return mk("conflict-monitor", "shared-heap-write:"+obs.heapConflicts[0], "no heap object written by two statement threads", strings.Join(obs.heapConflicts, " ; "))
+	}
+	if len(obs.keptDamage) > 0 {
+		return mk("no-interference", "storage-buffer-written", "the slices a storage hands out are read, never written", strings.Join(obs.keptDamage, " ; "))
 	}
 	for i := range solo {
 		if obs.results[i] != solo[i] {
@@ -674,8 +705,8 @@ func C19RunFree(iters int, copies int) (interference []string) {
 		}
 		for it := 0; it < iters; it++ {
 			sts := make([]kvql.Storage, len(sc.Stores))
-			for i, ps := range sc.Stores {
-				m := store.New(ps)
+			for i := range sc.Stores {
+				m := sc.newStore(i)
 				m.NoLog = true
 				if shared[i] > 1 && mutating {
 					sts[i] = store.NewLocked(m)
